@@ -183,8 +183,10 @@ def wide_histories(ctx):
     from spacepackets.seqcount import SeqCountProvider
     rng = ctx.rng
     plan = []
-    for w in (20, 31, 32, 33, 40, 53, 54, 63, 64):
-        starts = {2 ** w - 3, 2 ** (w - 1) - 2} | {10 ** k - 2 for k in range(5, 20) if 10 ** k + 4 < 2 ** w}
+    for w in (20, 31, 32, 33, 40, 53, 54, 63, 64, 65, 96, 103, 113, 128, 196, 200):
+        starts = {2 ** w - 3, 2 ** (w - 1) - 2} | {10 ** k - 2 for k in range(5, 62) if 10 ** k + 4 < 2 ** w and (k < 20 or k % 7 == 3)}
+        if w > 64:
+            starts |= {2 ** 64 - 3, 10 ** (len(str(2 ** w)) - 1) - 2, 10 ** (len(str(2 ** w)) - 1) + 5}
         starts |= {s for s in (2 ** 31 - 2, 2 ** 32 - 2, 2 ** 53 - 2) if s + 4 < 2 ** w}
         for s in sorted(starts) if ctx.thorough else rng.sample(sorted(starts), min(len(starts), 5)) + [2 ** w - 3]:
             plan.append((w, s))
